@@ -58,7 +58,7 @@ template <class BOX, bool FLOATING> struct BoxTR {
       o.lim_name = "limited_CC76_extrapolation_assign"; o.lim = [](D& x, const D& y, const Constraint_System& cs, unsigned* tp) { x.limited_CC76_extrapolation_assign(y, cs, tp); };
       v.push_back(o); v.push_back(o); v.push_back(o); }
     { WOp<D> o; o.name = "widening_assign"; o.cert = CERT_BOXT; o.thresholds = dflt; o.call = [](D& x, const D& y, unsigned* tp) { x.widening_assign(y, tp); }; v.push_back(o); }
-    { WOp<D> o; o.name = "CC76_widening_assign[stop-points]"; o.cert = CERT_BOXT; o.has_tp = false;
+    { WOp<D> o; o.name = "CC76_widening_assign@stop-points"; o.cert = CERT_BOXT; o.has_tp = false;
       std::shared_ptr<std::vector<Bd> > sp(new std::vector<Bd>());
       int k = rnd(0, 5); std::vector<int> pts; for (int i = 0; i < k; ++i) pts.push_back(rnd(-8, 12)); std::sort(pts.begin(), pts.end()); pts.erase(std::unique(pts.begin(), pts.end()), pts.end());
       for (size_t i = 0; i < pts.size(); ++i) { sp->push_back(boundary_from_int<Bd>(pts[i])); o.thresholds.push_back(Q(pts[i])); }
